@@ -76,6 +76,10 @@ type Violation struct {
 	Error     string         `json:"error"`
 	Signature string         `json:"signature"`
 	Bounds    map[string]int `json:"bounds"`
+	// Ops is the operation history for explicit-state (history BFS) counterexamples.
+	Ops []string `json:"ops,omitempty"`
+	// Class is the scenario class (workload/policy, input class).
+	Class string `json:"class,omitempty"`
 }
 
 // Result summarises an exploration.
